@@ -116,11 +116,50 @@ def cases_for(runs, progs, smallp):
             wt["header"] = wt["header"] or {"n8": 0, "prime": [], "nwitness": -1, "len": 0, "expectlen": -1}
         cases.append({"id": r["id"], "smallp": smallp, "raised": r["raised"], "ign": bool(pr.get("ign")), "trace": r["trace"], "r1cs": r1, "wtns": wt,
                       "satcert": satcerts(r1, wt, smallp or P_BN)})
+        if smallp:
+            # raw bytes next to the traced system as plain integers, for the writer's mechanism spec (SnarkjsWriter.tla)
+            def sint(b):
+                v = toint(b["abs"])
+                return -v if b["neg"] else v
+            tr = r["trace"]
+            w = {"id": r["id"], "p": smallp, "pubs": [sint(v) for v in tr["pub"]], "privs": [sint(v) for v in tr["priv"]],
+                 "cons": [[[[t["w"], sint(t["c"])] for t in lc] for lc in con] for con in tr["cons"]],
+                 "r1cs": list(open(os.path.join(r["workdir"], "circuit.r1cs"), "rb").read()), "wtns": list(open(os.path.join(r["workdir"], "witness.wtns"), "rb").read())}
+            small = all(abs(v) < (1 << 30) for v in w["pubs"] + w["privs"]) and all(abs(t[1]) < (1 << 30) for con in w["cons"] for lc in con for t in lc)
+            if small and len(w["r1cs"]) < 12000:
+                WRITER.append(w)
     return cases
+
+
+WRITER = []
+
+
+def writer_conformance(run):
+    """the files byte for byte against SnarkjsWriter.tla (mechanism): differences are MODEL-DRIFT, never violations"""
+    from concurrent.futures import ThreadPoolExecutor
+    cases = list(WRITER)
+    if not cases:
+        return
+    chunks = [cases[i:i + 12] for i in range(0, len(cases), 12)]
+    with ThreadPoolExecutor(8) as ex:
+        results = list(ex.map(lambda ch: common._tlc_on_chunk("SnarkjsWriter", "SnarkjsWriter.cfg", {"cases": ch}, 2, False, False, "3g"), chunks))
+    drift = 0
+    for ch, res in zip(chunks, results):
+        run.states += res.distinct
+        if res.error:
+            raise common.MachineryError("SnarkjsWriter: %s\n%s" % (res.error, res.stdout[-1500:]))
+        if res.violated:
+            drift += 1
+            c = ch[int(res.state["tid"]) - 1]
+            print("MODEL-DRIFT: %s -- the %s written for program %s is not the byte sequence SnarkjsWriter.tla predicts (%d bytes)" % (
+                res.violated, "witness.wtns" if res.violated == "Inv_Wtns" else "circuit.r1cs", c["id"], len(c["wtns"] if res.violated == "Inv_Wtns" else c["r1cs"])))
+    run.extra["snarkjs_writer_drift_chunks"] = drift
+    run.notes.append("SnarkjsWriter.tla: %d file pairs predicted byte for byte (%d chunk(s) with drift)" % (len(cases), drift))
 
 
 def main(tier):
     run = common.Run("C10", tier)
+    del WRITER[:]
     from concurrent.futures import ThreadPoolExecutor
     for smallp in (251, 0):
         progs = programs(tier, common.seed(), bool(smallp))
@@ -147,6 +186,8 @@ def main(tier):
                                "summary": "%s for files of program %s (%s)" % (res.violated, c["id"], "p=251" if smallp else "bn128 prime")})
         if run.violations:
             break
+    if not run.violations:
+        writer_conformance(run)
     return run.finish(RULE, assumptions=["nLabels and the input/output split of the header (nPubOut/nPubIn/nPrvIn) are not judged beyond nPubOut+nPubIn = number of public values",
                                          "real-prime congruences are decided from harness-supplied quotient certificates by exact integer identities"],
                       trusted=["TLC 1.8", "harness/decoders/iden3.py (parser)", "harness/filerun.py (observer of the backend's in-memory trace)"])
